@@ -30,7 +30,7 @@ def shards(tier):
 
 def gates(c, tier):
     out = []
-    for k in ("outcome:messages", "outcome:wait", "outcome:ProtocolError", "part:random", "part:operator", "part:bytesub", "part:truncate",
+    for k in ("outcome:messages", "outcome:wait", "outcome:ProtocolError", "part:random", "part:operator", "part:bytesub", "part:truncate", "part:valid-into-history",
               "part:nest", "post-error-receive-refused", "post-error-send-refused", "response:notice-checked", "response:unbind-checked"):
         if c.get(k, 0) == 0:
             out.append(f"never observed: {k}")
@@ -185,6 +185,21 @@ def run_shard(ctx: Ctx, acc: Acc):
         else:
             data = b"\x30" + bytes([r.choice([ln, ln + 1, max(0, ln - 1), 0x81, 0x84])]) + r.randbytes(ln)
         do("random", r.choice(ROLES), r.choice(S.HISTORIES), data, C.g_chunking(r, len(data)))
+    # (g) well-formed messages of every kind and small ids into every prior history of both roles (whatever an earlier
+    # refused or completed call left behind must not turn a later well-formed message into a foreign exception)
+    k = 0
+    for hist in S.HISTORIES:
+        for role in ROLES:
+            for op in gv.OPS:
+                for mid in (0, 1, 2, 3, 4):
+                    r = ctx.rng("g", k)
+                    k += 1
+                    if k % ctx.nshards != ctx.shard:
+                        continue
+                    data = rfc4511.encode(gv.g_message(r, gv.SMALL, op=op, mid=mid))
+                    if r.random() < 0.5:
+                        data += rfc4511.encode(gv.g_message(r, gv.SMALL, op=r.choice(gv.OPS), mid=r.choice([1, 2, 3])))
+                    do("valid-into-history", role, hist, data, C.g_chunking(r, len(data)))
     # (b) operators at every node of valid messages
     nb = max(1, n // 400)
     for j in range(nb):
